@@ -47,6 +47,17 @@ func init() {
 	}
 }
 
+// zombie: still in the process table, only waiting to be collected by its parent
+func zombie(pid int) bool {
+	b, err := os.ReadFile(fmt.Sprintf("/proc/%d/stat", pid))
+	if err != nil {
+		return true
+	}
+	s := string(b)
+	i := strings.LastIndexByte(s, ')')
+	return i >= 0 && i+2 < len(s) && (s[i+2] == 'Z' || s[i+2] == 'X')
+}
+
 func roles(out string) {
 	w := vio.Create(out)
 	defer w.Close()
@@ -87,7 +98,7 @@ func roles(out string) {
 		os.Setenv("VERIF_X11_OUT", tmp+"/launch-"+b)
 		pid, err := daemon.Launch(name)
 		time.Sleep(200 * time.Millisecond)
-		alive := err == nil && pid > 1 && syscall.Kill(pid, 0) == nil
+		alive := err == nil && pid > 1 && syscall.Kill(pid, 0) == nil && !zombie(pid)
 		w.Put(map[string]any{"kind": "launch", "nameset": false, "registered": false, "flag": "", "ret": false, "ran": "", "behaviour": b, "ok": err == nil, "alive": alive, "panicked": false})
 		if alive {
 			syscall.Kill(pid, syscall.SIGKILL)
